@@ -206,6 +206,8 @@ pub fn check_transition<R: RefTarget>(
     }
     let firm = agree && nominal.margin > 1e3 * beps.max(teps) && sens_x.iter().all(|s| s.is_finite());
     rep.count(&format!("depth[{}]", t.depth.min(12)));
+    rep.distinct_in("direction sequences of a transition", t.dirs.iter().map(|d| d.1).collect::<Vec<_>>());
+    rep.distinct_in("(depth, n, leaves) outcomes", (t.depth, t.n, t.leaves.len()));
     if nominal.diverged {
         rep.count("transitions_with_divergence");
     }
